@@ -423,6 +423,15 @@ func (r *Reconciler) reconcileAbort(ctx context.Context, proposal *configapi.Pro
 				return controller.Result{}, err
 			}
 			return controller.Result{}, nil
+		} else if config.Status.Committed.Index >= proposal.TransactionIndex &&
+			config.Status.Applied.Index >= proposal.TransactionIndex {
+			// A previous attempt moved the Configuration past this Proposal but failed before recording it.
+			proposal.Status.Phases.Abort.End = getCurrentTimestamp()
+			proposal.Status.Phases.Abort.State = configapi.ProposalAbortPhase_ABORTED
+			if err := r.updateProposalStatus(ctx, proposal); err != nil {
+				return controller.Result{}, err
+			}
+			return controller.Result{}, nil
 		}
 	case configapi.ProposalAbortPhase_ABORTED:
 		if proposal.Status.NextIndex != 0 {
